@@ -17,13 +17,14 @@ What is proved, for every number structure (`LOps α`), about the functions the 
     file in which the symbols are bound correctly, the reference value `evalT` of the tree
     (constant folding included); `initV_correct_plain`: after a successful init without CSE, `call xs`
     returns the reference value of every output; `reinit_fresh`: a visitor whose previous init
-    threw behaves like a fresh one.
+    threw behaves like a fresh one; `initV_wellformed`: the generated program is in SSA form (every
+    operand defined earlier, every output defined), plain and CSE path.
  4. `evalOp_*`: what the reference value of each operator is in terms of the number structure.
 
 LLVM's optimiser, instruction selection, JIT and the dumps/loads round trip are outside the kernel
 (partial); they are exercised by the harness at every optimisation level.
 -/
-import SymVerif.Lemmas.C14Init
+import SymVerif.Lemmas.C14WF
 import SymVerif.Gen.LLVMFormulas
 import SymVerif.Gen.EvalFormulas
 
@@ -137,6 +138,21 @@ theorem reinit_fresh (L : LOps α) (S : VState) (ins : List String) (outs : List
     initV (cfgOf L) S ins outs cse = initV (cfgOf L) {} ins outs cse :=
   initV_state_irrelevant (cfgOf L) init_clears_state S ins outs cse
 
+/-- **SSA well-formedness** of everything `init` generates (plain and CSE path, any prior state): every
+operand of every instruction is a constant or the result of an *earlier* instruction, and every stored
+output is defined. -/
+theorem initV_wellformed (L : LOps α) (S S' : VState) (ins : List String) (outs : List Expr)
+    (cse : Option (List (String × Expr) × List Expr)) (C : Compiled α)
+    (hinit : initV (cfgOf L) S ins outs cse = (S', .ok C)) :
+    WF C.body ∧ ∀ v ∈ C.outs, v.lt C.body.length :=
+  initV_wf (cfgOf L) S S' ins outs cse C hinit
+
+/-- code generation for a tree is well formed whenever the environment only hands out defined registers -/
+theorem compileT_wellformed (L : LOps α) (env : String → Option (Val α)) (t : T α) (P : Prog α) (v : Val α)
+    (P' : Prog α) (h : compileT L env t P = .ok (v, P')) (henv : EnvLt env P.length) :
+    ∃ ext, P' = P ++ ext ∧ WFfrom P.length ext ∧ v.lt P'.length :=
+  compileT_wf L env t P v P' h henv
+
 /-- a successful init leaves no stale state behind -/
 theorem init_ok_state_clean (cfg : Cfg α) (S S' : VState) (ins : List String) (outs : List Expr)
     (cse : Option (List (String × Expr) × List Expr)) (C : Compiled α)
@@ -214,6 +230,11 @@ def toyL : LOps Int := { O := toyOps, exp2 := fun x => some x, powi := fun x _ =
 example : ∃ S C, initV (cfgOf toyL) {} ["x", "y"] [.add (.int 0) [(.app "Sin" [.sym "x"], .int 1), (.sym "y", .int 2)]] none = (S, .ok C)
     ∧ run toyL C [3, 4] = [.ok 11] := by
   exact ⟨_, _, rfl, rfl⟩
+
+/-- the same program (it exists by the previous example) is well formed -/
+example : ∀ S C, initV (cfgOf toyL) {} ["x", "y"] [.add (.int 0) [(.app "Sin" [.sym "x"], .int 1), (.sym "y", .int 2)]] none = (S, .ok C)
+    → WF C.body :=
+  fun S C h => (initV_wellformed toyL {} S _ _ none C h).1
 
 example : agreeL ("ATan2", .external "atan2") = true := by decide
 example : agreeL ("Tan", .external "sin") = false := by decide
